@@ -7,7 +7,7 @@ From CGV Require Import Base.PyBase Base.PyVal Base.NxGraph Resolve.Bonding Reso
      Resolve.GraphOps Hydro.SquashDefs Hydro.HydroDefs.
 From CGV Require Hydro.Hydrogens Hydro.Squash.
 From CGV Require Import Compose.GraphAdj Compose.CutModel Compose.CutPos Compose.CutTables Compose.CutDisc Compose.CutSkeleton Compose.CutWf
-     Compose.CutHydrogens Compose.ComposeFlat Compose.CutSpecCheck.
+     Compose.CutHydrogens Compose.ComposeFlat Compose.CutSpecCheck Compose.RebuildWf Compose.CutSorted Compose.CutRunCheck Compose.CutRunSound.
 Import ListNotations.
 Open Scope Z_scope.
 
@@ -49,6 +49,23 @@ Proof. exact cut_all_atom_step. Qed.
 Definition C01_cut_hydrogens := cut_hydrogens.
 Definition C01_cut_sorted := cut_sorted.
 
+(** rebuild_h_atoms keeps the molecule graph well formed; hence the sorted result without side conditions *)
+Theorem C09_rebuild_preserves_wf : forall ca g1 g', wf_graph g1 -> all_no_rs g1 -> Hydrogens.rebuild_after_car false ca g1 = Ok g' -> wf_graph g'.
+Proof. exact rebuild_wf. Qed.
+Definition C01_completed_wf := completed_wf.
+Definition C01_completed_fragid := completed_fragid.
+Definition C01_cut_sorted_total := cut_sorted_total.
+
+(** what the per-run graph-level verdicts of ./check C01 mean (Compose/CutRunCheck.v) *)
+Theorem C01_skeleton_test_sound : forall C aa m, skeletonb C aa m = true -> skeleton C aa m.
+Proof. exact skeletonb_sound. Qed.
+Theorem C01_run_check_sound : forall r,
+  wf_cutb (rc_cut r) = true -> templates_okb (rc_cut r) (rc_fd r) = true -> is_baseb (rc_cut r) (rc_base r) = true ->
+  (rc_aa r = true -> aa_payloadb (rc_cut r) = true) ->
+  exists m2, model_run r = Ok m2 /\ skeleton (rc_cut r) (rc_aa r) m2.
+Proof. exact run_check_sound. Qed.
+Definition C01_run_fail_zero := run_fail_zero.
+
 (** C06, composition at the level of the bonding step *)
 Definition C06_layered_base := layered_base.
 Definition C06_compose_flat := compose_flat.
@@ -69,6 +86,11 @@ Print Assumptions C01_skeleton_wf.
 Print Assumptions C01_cut_all_atom_step.
 Print Assumptions C01_cut_hydrogens.
 Print Assumptions C01_cut_sorted.
+Print Assumptions C09_rebuild_preserves_wf.
+Print Assumptions C01_cut_sorted_total.
+Print Assumptions C01_skeleton_test_sound.
+Print Assumptions C01_run_check_sound.
+Print Assumptions C01_run_fail_zero.
 Print Assumptions C06_layered_base.
 Print Assumptions C06_compose_flat.
 Print Assumptions C01_base_test_sound.
